@@ -119,4 +119,51 @@ def SpKey.le (a b : SpKey) : Bool := a.conn < b.conn || (a.conn == b.conn && a.n
 
 def speciesOrder (l : List SpKey) : List SpKey := l.mergeSort SpKey.le
 
+/-! ### the `naunet extend` command (`console/commands/extend.py`) on a network that has been read -/
+
+/-- what the command reads off a species -/
+structure SpAttr where
+  neutralGas : Nat → Bool      -- `spec.name == spec.gasname and spec.charge == 0`
+  surface    : Nat → Bool      -- `spec.is_surface`
+  iceOf      : Nat → Nat       -- the species spelled `<surface prefix><name>`
+  gasOf      : Nat → Nat       -- the species spelled `spec.gasname` (prefix removed, charge kept)
+
+/-- `net.reactants | net.products` -/
+def netSpecies (s : State) : List Nat := unionSet s.reactants s.products
+
+/-- the one-reactant one-product reaction the command builds (`key`: its equality class) -/
+def single (key : Nat → Nat → Nat → Nat) (ty x y : Nat) : Reac := ⟨0, [x], [y], key ty x y⟩
+
+/-- `--append-depletion`: a freeze-out reaction for every neutral gas-phase species present -/
+def appendDepletion (a : SpAttr) (key : Nat → Nat → Nat → Nat) (ty : Nat) (s : State) : State :=
+  (((netSpecies s).filter a.neutralGas).map fun x => single key ty x (a.iceOf x)).foldl add s
+
+/-- `--append-<process>-desorption`: every surface species present returns to *its* gas-phase species -/
+def appendDesorption (a : SpAttr) (key : Nat → Nat → Nat → Nat) (ty : Nat) (s : State) : State :=
+  (((netSpecies s).filter a.surface).map fun x => single key ty x (a.gasOf x)).foldl add s
+
+/-- positions of the reactions that contain one of the species (`where_species` over a list of names) -/
+def whereAny (xs : List Nat) (held : List Reac) : List Nat :=
+  (List.range held.length).filter fun i => match held[i]? with
+    | some r => r.species.any (· ∈ xs)
+    | none => false
+
+structure ExtendOpts where
+  keep    : Option (List Nat)     -- `--reduce-by-species`
+  remove  : List Nat              -- `--remove-species`
+  dedup   : Bool                  -- `--remove-duplicate`
+  deplete : Bool                  -- `--append-depletion`
+  desorb  : List Nat              -- reaction types of the `--append-*-desorption` options given, in the command's order
+
+/-- the command, from the reactions read to the reactions written -/
+def extend (a : SpAttr) (key : Nat → Nat → Nat → Nat) (o : ExtendOpts) (rs : List Reac) : State :=
+  let s0 : State := rs.foldl add {}
+  let s1 : State := match o.keep with
+    | none => s0
+    | some l => (s0.held.filter fun r => r.species.all (· ∈ l)).foldl add {}
+  let s2 := if o.remove.isEmpty then s1 else step s1 (.removeIdxs (whereAny o.remove s1.held))
+  let s3 := if o.dedup then step s2 (.removeIdxs (findDup (fun x y => x.eqk == y.eqk) s2.held).1) else s2
+  let s4 := if o.deplete then appendDepletion a key 200 s3 else s3
+  o.desorb.foldl (fun st ty => appendDesorption a key ty st) s4
+
 end Naunet.Net
